@@ -618,7 +618,7 @@ FAMILIES = {
                      ops={"d": 10, "gs": 1, "gm": 1, "as": 2, "ss": 1, "sc": 1, "un": 3, "it": 1, "th": 1,
                           "tk": 1, "close": 1, "ar": 1, "am": 1}, max_ops=4, max_threads=4, mws=(0, 1)), 30),
     "droppable": (dict(policies=ALLPOL, caps=[1, 2], directs=(0, 2), chans=(0, 1), chan_pols=["block"],
-                       ops={"d": 10, "gs": 2}, max_ops=4, max_threads=4, stop=1.0, only_drop=True), 30),
+                       ops={"d": 10, "gs": 2, "close": 2}, max_ops=4, max_threads=4, stop=1.0, only_drop=True), 30),
     "metrics": (dict(policies=ALLPOL, directs=(0, 2), reducers=(0, 2), effects=0.2, verdict=0.3,
                      ops={"d": 12, "gm": 3, "close": 1}, max_ops=5, mws=(0, 2), max_threads=3), 15),
 }
